@@ -42,7 +42,9 @@ class _Freq(Stub):
     __hash__ = None
 
     def _abs_isinstance(self, t):
-        return False
+        # a half-hourly frequency is a fixed-length offset (Tick / Minute), not a calendar one (MonthEnd, MonthBegin, Day in pandas 3)
+        ts = t if isinstance(t, tuple) else (t,)
+        return any(isinstance(x, ClassRef) and x.name in ("Tick", "Minute", "DateOffset", "BaseOffset") for x in ts)
 
 
 class _TIdx(Idx):
@@ -80,7 +82,25 @@ class _In(Stub):
         raise Unsupported(f"input column {k}")
 
 
+class _Offsets(Stub):
+    Tick = ClassRef("Tick")
+    Minute = ClassRef("Minute")
+    Hour = ClassRef("Hour")
+    Day = ClassRef("Day")
+    DateOffset = ClassRef("DateOffset")
+    BaseOffset = ClassRef("BaseOffset")
+    MonthEnd = ClassRef("MonthEnd")
+    MonthBegin = ClassRef("MonthBegin")
+
+
+class _TSeriesNS(Stub):
+    offsets = _Offsets()
+
+
 class _PD(PDRow):
+    tseries = _TSeriesNS()
+    offsets = _Offsets()
+
     @staticmethod
     def Timedelta(*a, **k):
         return Opaque("Timedelta")
